@@ -49,7 +49,7 @@ CLAIMS = {
     "C01": {
         "text": "Kernel-checked over every ordered field, all shapes N,M,S, all user models, weights and every SVD routine satisfying SVDSpec: whenever coefficients are present after set_params they satisfy the "
                 "truncated normal equations for all right-hand sides (c01_normal_eq), hence minimise ||y_s - A_eps c|| per column (c01_minimises), are the minimum-norm minimiser (c01_min_norm), "
-                "minimise the ORIGINAL weighted problem whenever only exactly-zero singular values are truncated (c01_original_problem), depend linearly on the data (c01_linear); a negative threshold never yields coefficients "
+                "minimise the ORIGINAL weighted problem whenever only exactly-zero singular values are truncated (c01_original_problem), are the UNIQUE minimiser when W*Phi has trivial kernel (c01_unique), depend linearly on the data (c01_linear); a negative threshold never yields coefficients "
                 "(c01_negative_eps_absent). SVD::solve is transcribed from nalgebra, not assumed. Tie: coefficients of the real problem vs the model on Float after build and every update, plus the normal-equation / minimum-norm / finiteness monitors on the implementation's own output.",
         "note": "Trusted: Lean kernel; SVDSpec of nalgebra's SVD (assumed, numerically monitored through the comparison); floating point is modelled not verified (tolerances c*u*kappa^e computed per case); transcription Core/Problem.lean validated by the stream.",
     },
@@ -112,8 +112,8 @@ CLAIMS = {
     },
     "C13": {
         "text": "Kernel-checked under InvSpec: covariance = chi2 * (H^T H)^-1 with H = W [Phi | D_k c] (c13_cov), index j<M is coefficient j and M+k is parameter k (c13_order), covariance symmetric (c13_symm, inv_symm), every variance >= 0 because the inverse is a Gram matrix (c13_diag_nonneg), "
-                "variance accessors are exactly the diagonal segments (c13_var_slices), correlation = cov_ij/sqrt(c_ii c_jj) with unit diagonal for positive variances (c13_corr). Tie: every FitStatistics accessor compared / monitored on the statistics stream.",
-        "note": "Trusted: as C01 plus InvSpec of nalgebra's LU inverse (assumed; monitored by cov*H^T H/sigma^2 = 1). |corr_ij| <= 1 (Cauchy-Schwarz on the Gram form) is monitored, its theorem is planned.",
+                "variance accessors are exactly the diagonal segments (c13_var_slices), correlation = cov_ij/sqrt(c_ii c_jj) with unit diagonal for positive variances (c13_corr), C_ij^2 <= C_ii*C_jj and hence |corr_ij| <= 1 for positive variances, end to end for every successful computation (c13_cov_cauchy_schwarz, c13_corr_bound, c13_corr_in_range). Tie: every FitStatistics accessor compared / monitored on the statistics stream.",
+        "note": "Trusted: as C01 plus InvSpec of nalgebra's LU inverse (assumed; monitored by cov*H^T H/sigma^2 = 1). A zero variance makes the Rust code divide by zero (NaN/inf): floating-point behaviour, excluded by hypothesis.",
     },
     "C14": {
         "text": "Kernel-checked under TSpec: radius_i = t((1+p)/2; N-M-P) * sqrt(j_i^T Cov j_i) with j_i from the UNWEIGHTED model-function Jacobian, one entry per sample (c14_formula), a probability outside (0,1) is rejected, inside accepted (c14_domain), "
